@@ -250,6 +250,25 @@ pub fn rich(rng: &mut Rng, o: &RichOpts, layout: &Layout) -> DocSpec {
             ascii_hex(&zlib_stored(&rows6)),
         );
         xobj_entries.push(("Im6".into(), Val::r(im6)));
+        // LZW, 400 pixels that do not repeat much (the code width grows past 9 bits, so /EarlyChange
+        // matters): once with /EarlyChange 0, once with the default
+        let pixels7: Vec<u8> = (0..400u32).map(|i| ((i * 37 + i / 7) % 251) as u8).collect();
+        for (name, early) in [("Im7", false), ("Im8", true)] {
+            let mut d: Dict = vec![
+                ("Type".into(), Val::name("XObject")),
+                ("Subtype".into(), Val::name("Image")),
+                ("Width".into(), Val::Int(40)),
+                ("Height".into(), Val::Int(10)),
+                ("ColorSpace".into(), Val::name("DeviceGray")),
+                ("BitsPerComponent".into(), Val::Int(8)),
+                ("Filter".into(), Val::name("LZWDecode")),
+            ];
+            if !early {
+                d.push(("DecodeParms".into(), Val::dict(vec![("EarlyChange", Val::Int(0))])));
+            }
+            let im = b.add_stream(d, lzw(&pixels7, early));
+            xobj_entries.push((name.into(), Val::r(im)));
+        }
     }
     if o.forms {
         let fm = b.add_stream(
@@ -476,6 +495,38 @@ pub fn shared_header_patch(bytes: &mut Vec<u8>) {
     }
 }
 
+/// Hostile: two JBIG2 streams that name each other as /JBIG2Globals (a typed reference cycle through
+/// the filter parameters), beside a healthy page tree.
+pub fn jbig_cycle(rng: &mut Rng, layout: &Layout) -> DocSpec {
+    let mut b = Builder::new();
+    let catalog = b.reserve();
+    let pages = b.reserve();
+    let p1 = b.add(Val::dict(vec![("Type", Val::name("Page")), ("Parent", Val::r(pages)), ("MediaBox", rect(0, 0, 100, 100)), ("Resources", Val::dict(vec![]))]));
+    let a = b.reserve();
+    let c = b.reserve();
+    for (me, other) in [(a, c), (c, a)] {
+        b.put_stream(
+            me,
+            vec![
+                ("Type".into(), Val::name("XObject")),
+                ("Subtype".into(), Val::name("Image")),
+                ("Width".into(), Val::Int(1)),
+                ("Height".into(), Val::Int(1)),
+                ("ColorSpace".into(), Val::name("DeviceGray")),
+                ("BitsPerComponent".into(), Val::Int(1)),
+                ("Filter".into(), Val::name("JBIG2Decode")),
+                ("DecodeParms".into(), Val::dict(vec![("JBIG2Globals", Val::r(other))])),
+            ],
+            vec![0, 1, 2, 3],
+        );
+    }
+    b.put(pages, Val::dict(vec![("Type", Val::name("Pages")), ("Kids", Val::Arr(vec![Val::r(p1)])), ("Count", Val::Int(1))]));
+    b.put(catalog, Val::dict(vec![("Type", Val::name("Catalog")), ("Pages", Val::r(pages))]));
+    let mut layout = layout.clone();
+    layout.keep_direct.push(catalog);
+    b.finish(catalog, &layout, rng)
+}
+
 /// A page tree as deep as `File::get_page` accepts (the root plus up to 15 nested /Pages nodes),
 /// with a leaf at the bottom and one at every third level.
 pub fn deep_tree(rng: &mut Rng, layout: &Layout) -> DocSpec {
@@ -528,6 +579,7 @@ pub enum Family {
     RichEncrypted,
     Dangling,
     SharedHeader,
+    JbigCycle,
 }
 impl Family {
     pub fn name(&self) -> &'static str {
@@ -539,6 +591,7 @@ impl Family {
             Family::RichEncrypted => "rich_encrypted",
             Family::Dangling => "dangling",
             Family::SharedHeader => "shared_header",
+            Family::JbigCycle => "jbig_cycle",
         }
     }
 }
@@ -555,6 +608,7 @@ pub fn generate(family: &Family, rng: &mut Rng) -> DocSpec {
         Family::DeepTree => deep_tree(rng, &layout),
         Family::Dangling => dangling(rng, &layout),
         Family::SharedHeader => shared_header(rng, &layout),
+        Family::JbigCycle => jbig_cycle(rng, &layout),
         Family::RichEncrypted => {
             let o = RichOpts::random(rng);
             let mut layout = layout;
